@@ -3,18 +3,20 @@
 (* sequences and the helper / reply scenarios of PeerInput.tla and writes them as ndjson.*)
 EXTENDS PeerInput, Json, SequencesExt
 
-ASSUME ndJsonSerialize("alphabet.ndjson", SetToSeq({[lab |-> s.lab, node |-> s.node] : s \in Alphabet \cup Alphabet2}))
+ASSUME ndJsonSerialize("alphabet.ndjson", SetToSeq({[lab |-> s.lab, node |-> s.node] : s \in Alphabet \cup Alphabet2 \cup AddrLabelled}))
 (* the classes of SeqScenarios are pairwise disjoint (MCPeerInput checks it): they are emitted *)
 (* one after the other, the big union is never normalised                                    *)
 RECURSIVE Cat(_, _)
 Cat(ss, i) == IF i > Len(ss) THEN <<>> ELSE SetToSeq(ss[i]) \o Cat(ss, i + 1)
 AllSeqs == Cat(SeqClasses \o <<Singles2>>, 1)
 ASSUME ndJsonSerialize("seqs.ndjson", AllSeqs)
-ASSUME ndJsonSerialize("replies.ndjson", SetToSeq(ReplyScenarios))
-ASSUME PrintT(<<"EMITTED", Cardinality(Alphabet) + Cardinality(Alphabet2), NSeqScenarios + Cardinality(Singles2),
-                Cardinality(ReplyScenarios)>>)
+(* the reply scenarios on the usual session and the ones that vary the session (disjoint: the  *)
+(* latter are not on the usual fresh session or carry labels of their own)                     *)
+ASSUME ndJsonSerialize("replies.ndjson", SetToSeq(ReplyScenarios) \o SetToSeq(SessReplyScenarios))
+ASSUME PrintT(<<"EMITTED", Cardinality(Alphabet) + Cardinality(Alphabet2) + Cardinality(AddrLabelled), NSeqScenarios + Cardinality(Singles2),
+                Cardinality(ReplyScenarios) + Cardinality(SessReplyScenarios)>>)
 
-EInit == /\ n = 0 /\ cfg = "listen" /\ pos = 0 /\ eof = FALSE /\ served = "running" /\ ncalls = 0 /\ nret = 0
-         /\ loc = "clean" /\ cancelled = FALSE
+EInit == /\ n = 0 /\ cfg = "listen" /\ life = "fresh" /\ pos = 0 /\ eof = FALSE /\ served = "idle" /\ nserve = 0 /\ outclosed = FALSE
+         /\ ncalls = 0 /\ nret = 0 /\ loc = "clean" /\ cancelled = FALSE
 ENext == UNCHANGED vars
 =============================================================================
